@@ -96,6 +96,8 @@ def helpers(ctx, N, d):
 
 def replay_case(ctx, case):
     ctx.pairs = 0
+    if case.get('reconstruct'):
+        return reconstruct_fails(case['N'], case['d'])
     if case.get('cold_start'):
         import importlib
         importlib.reload(ei)
@@ -107,6 +109,38 @@ def replay_case(ctx, case):
         G[...] = 7.0
         rays[...] = 0
     return check_nd(ctx, case['N'], case['d']) or helpers(ctx, case['N'], case['d'])
+
+
+def reconstruct_fails(N, d):
+    """the consequence the property states: Gamma times the d-th Taylor coefficients along the rays gives the partial
+    derivatives divided by the multi-index factorial -- for every monomial of degree d (exact integer data), and the full
+    derivative array holds each of them at EVERY permutation of its index tuple"""
+    import itertools
+    mi = ei.generate_multi_indices(N, d)
+    x0 = np.arange(1, N + 1, dtype=float) * 0.5
+    for a_i, alpha in enumerate(mi):
+        def f(x):
+            t = 1.0
+            for n in range(N):
+                for _ in range(int(alpha[n])):
+                    t = t * x[n]
+            return t + 0 * x[0]
+        y = f(UTPM.init_tensor(d, x0))
+        vec = np.asarray(UTPM.extract_tensor(N, y, as_full_matrix=False), dtype=float).ravel()
+        want = np.zeros(len(mi))
+        want[a_i] = 1.0                                            # d^alpha x^alpha / alpha! = 1, every other d-th order partial vanishes
+        if vec.shape != want.shape or not np.allclose(vec, want, atol=1e-8):
+            return 'reconstruct-N%d-d%d: Gamma times the Taylor coefficients of the monomial x^%s is not the unit vector' % (N, d, alpha.tolist())
+        full = np.asarray(UTPM.extract_tensor(N, y, as_full_matrix=True), dtype=float)
+        fact = math.prod(math.factorial(int(a)) for a in alpha)
+        pos = [n for n in range(N) for _ in range(int(alpha[n]))]
+        wantf = np.zeros((N,) * d)
+        for perm in set(itertools.permutations(pos)):
+            wantf[perm] = fact
+        if full.shape != wantf.shape or not np.allclose(full, wantf, atol=1e-7):
+            return 'reconstruct-full-N%d-d%d: the derivative array of the monomial x^%s does not hold d^alpha f = %d at every permutation of the index tuple' % (
+                N, d, alpha.tolist(), fact)
+    return None
 
 
 def run(ctx):
@@ -136,6 +170,15 @@ def run(ctx):
         f = check_nd(ctx, N, d)
         if f:
             ctx.report(dict(case, second_request=True), 'failure', 'after-mutation-' + f)
+    for (N, d) in [(2, 2), (2, 3), (3, 2), (3, 3), (2, 4), (4, 3)][:6 if ctx.tier != 'quick' else 5]:
+        ctx.evaluations += 1
+        ctx.count('reconstruct')
+        try:
+            f = reconstruct_fails(N, d)
+        except Exception as ex:
+            f = 'reconstruct-exception-N%d-d%d: %s' % (N, d, type(ex).__name__ + ':' + str(ex)[:80])
+        if f:
+            ctx.report({'N': N, 'd': d, 'reconstruct': True}, 'failure', f)
     # cold start: module-level state as in a fresh process (reload), then (N, d) requested first thing, in descending and
     # shuffled order of d -- a memo table must not depend on which degrees were asked for before
     import importlib
